@@ -119,6 +119,27 @@ add(
     "No arrays of tables / inline tables / multi-line values / table-scalar conflicts.",
 )
 
+add(
+    "C06",
+    "fault injection at every SQL statement boundary (sqlite3 trace callback + second connection) over Hypothesis-generated operation histories, judged by an observational prefix oracle; validated by real SIGKILL/_exit/exit child processes",
+    "Every crash point between two SQL statements of every generated history is enumerated (not sampled) and the state a process death would leave is compared with the writer's per-operation states: prefix, no split, bucket ops durable, bounded tail, auto-commit. Real process deaths at generated statement indices (and timer kills in thorough) confirm that the second connection sees what a crash leaves.",
+    "Process death, not power loss; SQLite's atomic commit trusted between boundaries; 'about 50' = alarm at 64 rows; row-wise between for multi-row operations.",
+    category="fault_enumeration",
+)
+add(
+    "C14",
+    PBT + "a content-preservation oracle over generated legacy databases written through the legacy backend at its default location, in both profiles",
+    "Legacy stores with unicode ids, names, nested data, arbitrary instants and up to 300 events per bucket are migrated by constructing the default SQLite store; buckets, metadata and the event multiset must be preserved and the legacy file untouched (rows and bytes).",
+    "Event ids may be renumbered; one migration per process at a time.",
+)
+add(
+    "C18",
+    "fault injection with a controlled clock over Hypothesis-generated write histories (module-level datetime rebinding + second-connection observer); thorough adds real-time child processes",
+    "For every event write issued >= 11 s (fake clock) after the latest flush the write must be visible through a second connection when it returns; inter-arrival times from bursts to days; thorough confirms with 16 real 11-12 s sleeps and no patching.",
+    "The store must read the clock through its module's `datetime` (asserted; else exit 2); advances in (9, 11) s are not generated; bulk calls carry id-less events only.",
+    category="fault_enumeration",
+)
+
 NOT_YET = {}
 
 
